@@ -60,6 +60,7 @@ class Facts:
     def __init__(self, fi, include_nested=True):
         self.fi = fi
         self.defs = {}      # name -> list of source exprs (values that flow into name)
+        self.assigns = {}   # name -> values bound to the name itself (assignment, loop / with / comprehension target)
         self.stores = {}    # name -> list of (target expr, value expr, stmt)  [subscript/attr stores & mutator calls]
         self._collect(fi.node, include_nested)
         self._cache = {}
@@ -84,6 +85,8 @@ class Facts:
         p = pseudo(t)
         if p is not None:
             self._add(p, value)
+            if value is not None:
+                self.assigns.setdefault(p, []).append(value)
             return
         b = base_name(t)
         if b is not None:
